@@ -316,9 +316,11 @@ def export_geogram_ascii(mesh : RawMeshData, path):
             # Cell faces
             n_cell_faces = sum([len(c) for c in mesh.cells])
             cell_adj = mesh.cell_faces.get_attribute("adjacent_cell")
-            f.write("[ATTR]\n\"GEO::Mesh::cell_corners\"\n\"GEO::Mesh::cell_faces::adjacent_cell\"\n\"index_t\"\n4\n1\n")
-            for x in cell_adj:
-                f.write(f"{x}\n")
+            f.write("[ATTS]\n\"GEO::Mesh::cell_facets\"\n{}\n".format(n_cell_faces))
+            f.write("[ATTR]\n\"GEO::Mesh::cell_facets\"\n\"GEO::Mesh::cell_facets::adjacent_cell\"\n\"index_t\"\n4\n1\n")
+            for iC,cell in enumerate(mesh.cells):
+                for iF in range(len(cell)):
+                    f.write(f"{cell_adj[(iC,iF)]}\n") # one value per cell facet (the attribute is keyed by (cell, local facet))
 
             for attr_key in mesh.cell_faces.attributes:
                 if attr_key=="adjacent_cell" : continue
